@@ -47,3 +47,6 @@ Inductive gen_mode := PopFirst | PruneAfter | GenUnknown.
 (* tasks._task__getstate__: an explicit whitelist of attributes (fields, _lt, _is_task, cache_key, _results_map=None),
    or a copy of the instance dict *)
 Inductive getstate_mode := GSWhitelist | GSVars | GSUnknown.
+
+(* tasks._task_post_init: is the cache_key (re)computed after the user's post_init has run, or only before it? *)
+Inductive key_mode := KeyAfterPostInit | KeyBeforePostInit | KeyUnknown.
